@@ -338,7 +338,7 @@ func (m *monitor) resolveAmt(src common.Address, amt string) string {
 func (m *monitor) build(idx int, s *TxSpec, nonceAhead map[common.Address]uint64) *built {
 	b := &built{spec: s, value: new(big.Int)}
 	tag := fmt.Sprintf("c06-%s-%d-%d", m.cfg, m.wit.Seq, idx)
-	if s.Kind == "mature" || s.Kind == "reward" {
+	if s.Kind == "mature" || s.Kind == "reward" || s.Kind == "barrier" {
 		return b
 	}
 	src := m.resolve(s.Src)
@@ -386,6 +386,15 @@ func (m *monitor) build(idx int, s *TxSpec, nonceAhead map[common.Address]uint64
 			if nonce > 0 {
 				m.addUni(crypto.CreateAddress(src, nonce-1), "new-alt")
 			}
+			authEnv.invoker, authEnv.chainID, authEnv.used = b.created, common.GetChainId(m.height), map[common.Address]uint64{}
+			authEnv.nonceOf = m.adb.GetNonce
+			authEnv.sign = func(au common.Address, digest []byte) []byte {
+				sig, err := crypto.Sign(digest, m.keyOf(au))
+				if err != nil {
+					panic(err)
+				}
+				return sig
+			}
 			input = compile(s.Prog, m.resolve)
 			m.predict(s.Prog, b.created, 1, 0, 0)
 		} else {
@@ -407,7 +416,7 @@ func (m *monitor) build(idx int, s *TxSpec, nonceAhead map[common.Address]uint64
 		if v, ok := parseTokens(val); ok {
 			b.value = v
 		}
-		if s.Via == "eth" {
+		if s.Via == "eth" && m.hasKey(src) {
 			key := m.keyOf(src)
 			gas := uint64(30000000)
 			if s.GasLimit != "" {
@@ -476,6 +485,15 @@ func (m *monitor) build(idx int, s *TxSpec, nonceAhead map[common.Address]uint64
 	}
 	nonceAhead[src]++
 	return b
+}
+
+func (m *monitor) hasKey(a common.Address) bool {
+	for _, k := range m.keys {
+		if crypto.PubkeyToAddress(k.PublicKey) == a {
+			return true
+		}
+	}
+	return false
 }
 
 func (m *monitor) keyOf(a common.Address) *ecdsa.PrivateKey {
@@ -672,6 +690,21 @@ func entryOf(s *TxSpec) string {
 	return s.Kind
 }
 
+// unpaidGas: gasUsed*gasPrice of a successful contract transaction whose sender
+// ended with less than that bill (the shape of "fee account credited, debit of the
+// sender silently refused"); zero otherwise.
+func (m *monitor) unpaidGas(b *built, rc *types.Receipt, post *obs) *big.Int {
+	z := new(big.Int)
+	if b.tx == nil || rc == nil || rc.Status != types.ReceiptStatusSuccessful || rc.GasUsed == 0 || !types.IsContractTx(b.tx.Type) {
+		return z
+	}
+	bill := new(big.Int).Mul(new(big.Int).SetUint64(rc.GasUsed), gasPrice)
+	if sb := post.bal[m.resolve(b.spec.Src)]; sb == nil || sb.Cmp(bill) >= 0 {
+		return z
+	}
+	return bill
+}
+
 // runBlock executes the specs [lo,hi) of the current sequence as ONE block at
 // the next height and judges it. Single-spec blocks get the per-kind rules;
 // multi-spec blocks the conservation identity.
@@ -679,6 +712,9 @@ func (m *monitor) runBlock(lo, hi int) {
 	specs := m.wit.Specs[lo:hi]
 	m.wit.At = lo
 	first := specs[0]
+	if first.Kind == "barrier" { // only separates blocks in block mode
+		return
+	}
 	situation := "testing"
 	after := false
 	hdrGroup, hdrCastor := []byte(nil), []byte{1}
@@ -833,6 +869,16 @@ func (m *monitor) runBlock(lo, hi int) {
 		if b.spec.Template != "" {
 			m.r.Count("template:"+b.spec.Template, 1)
 		}
+		if b.spec.Template == "authcall" && out == "ok" {
+			for _, ac := range b.spec.Prog {
+				if ac.Op != "authcall" || ac.To == "self" || ac.To == "origin" {
+					continue
+				}
+				if t := m.resolve(ac.To); post.bal[t] != nil && pre.bal[t] != nil && post.bal[t].Cmp(pre.bal[t]) > 0 {
+					m.r.Count("authcall_value_moved", 1)
+				}
+			}
+		}
 		if moved || (out == "failed" && b.value.Sign() > 0) {
 			js, _ := json.Marshal(b.spec)
 			m.r.Distinct("nontrivial", []byte(m.cfg), js)
@@ -905,7 +951,15 @@ func (m *monitor) runBlock(lo, hi int) {
 			dmax.SetInt64(0)
 		}
 		m.r.Count("block_mode_blocks", 1)
+		unpaid := new(big.Int)
+		for _, b := range bs {
+			if b.tx != nil {
+				unpaid.Add(unpaid, m.unpaidGas(b, status[b.tx.Hash], post))
+			}
+		}
 		switch {
+		case lhs.Sign() > 0 && lhs.Cmp(unpaid) == 0:
+			m.fail("C06:block:gas-fee-credited-without-debit", "the sum grew by exactly gasUsed*gasPrice of successful contract transactions whose sender ended with less than that: the fee account was credited, the sender not debited; "+desc())
 		case lhs.Sign() > 0:
 			m.fail("C06:block:sum-increased", "balances + registered stake + escrow grew over a multi-transaction block; "+desc())
 		case neg(lhs).Cmp(dmax) > 0:
@@ -1023,6 +1077,9 @@ func (m *monitor) runBlock(lo, hi int) {
 		}
 		var sig string
 		switch {
+		case dBal.Cmp(hi) > 0 && entry == "evm" && hi.Sign() == 0 && dBal.Cmp(m.unpaidGas(b, rc, post)) == 0:
+			// exactly the gas bill appeared from nowhere and the sender holds less than it
+			sig = "C06:evm:gas-fee-credited-without-debit:" + tmpl
 		case dBal.Cmp(hi) > 0 && entry == "evm":
 			sig = "C06:evm:value-created:" + tmpl
 		case dBal.Cmp(hi) > 0 && entry == "mature":
